@@ -27,7 +27,8 @@ import sys
 import numpy as np
 
 from ..contracts import attach, detach_all, quiet
-from ..polyhard import cfg32, clear_caches, warm32, layouts, is_c_contig, contig, order_containers
+from ..polyhard import (cfg32, clear_caches, warm32, layouts, is_c_contig, contig, order_containers, foreign_traffic, high_orders, seq_coord_kind_ok, coord_forms,
+                        form_class, more_order_containers, term_containers, ORDER_FORMS, NM_FORMS, N_ONLY_FORMS, PARAM_FORMS, INT_PARAM_FORMS, INT_HERMITE_MAX_ORDER)
 from ..refmodels import poly_exact as E
 from ..util import precision
 
@@ -57,7 +58,15 @@ RULE = ('families x parameter classes (Chebyshev half-integers, Legendre, (0,4),
         'before asking again); memory layouts (Fortran, transposed view, strided, window, reversed strides; 1-D, 2-D, 3-D) of every coordinate; '
         'containers (orders as int32 / int64 / intp scalars and list / tuple / int32 / int64 ndarray / numpy ints / range, parameters as numpy '
         'float64, term lists as lists / tuples / int ndarrays); orders >= 18 and >= 40 for the two-index families, monomials and Hopkins terms in '
-        'the quick tier too; shape parameters as numpy float32 scalars followed by the same values as python floats')
+        'the quick tier too; shape parameters as numpy float32 scalars followed by the same values as python floats. Hardening pass 2: class D in the quick '
+        'tier - orders 171, 172, 200, 256, 400 (Hermite: to 200) for every family, single-order and sequence form on the same points, against the exact '
+        'definition; class E - argument forms the current tree accepts as the same input (table in vp/polyhard.py): coordinates as python int / float / '
+        'complex, int64 / int32 / bool ndarrays, complex128 (exact definition at Gaussian-rational points) and complex64, orders as python int / int64 / int32 / '
+        'uint32 / uint64 / intp and in lists / unsigned ndarrays / dict key views / generators, (n, m) as numpy integers (unsigned for n only), term lists in '
+        'every accepted container, shape parameters as numpy float64 / float32 / python int / numpy int64 incl. the lines alpha + beta = -1, 0 with alpha != beta, '
+        'norm / cartesian_grid omitted vs explicit (also after the other explicit value, positional vs keyword); class F - every family judged after unmonitored '
+        'traffic through the shared recurrence tables from the derivative / Clenshaw / change-of-basis / fit routines (precision 32, numpy-typed orders, ndarray '
+        'coefficients)')
 ASSUMPTIONS = ['textbook definitions as written in vp/refmodels/poly_exact.py (Szego 4.3.2 Jacobi sum; Mason-Handscomb '
                'numbering of the 3rd/4th-kind Chebyshev polynomials; Dickson D_0 = 2; Zernike norm sqrt(2(n+1)/(1+delta_m0)))',
                'Qbfs / 2D-Q are defined by: degree n in u^2, positive at the origin, orthonormal gradients under '
@@ -74,6 +83,12 @@ ASSUMPTIONS = ['textbook definitions as written in vp/refmodels/poly_exact.py (S
                'emptying prysm\'s memo tables (functools cache_clear, where a helper offers it) never changes what a correct library returns; it is used to '
                'start histories from a known state and to label a failure as history-dependent',
                'a caller may overwrite an array a routine returned, unless that array shares memory with the coordinates it passed (counted, not judged)',
+               'argument forms (class E): the set of accepted forms is DATA established on /repo @ faa8443 (vp/polyhard.py): a form for which the current tree raises, truncates '
+               'into an integer dtype or wraps (unsigned coordinates, integer / bool coordinates of most *_seq routines, python-scalar coordinates of *_seq, unsigned m, '
+               '0-d array orders - unhashable, rejected by property-preserving refactors that key tables by order -, generators for cheby2/4_seq and the two-index lists) is out of domain; '
+               'a complex point is judged against the analytic continuation of the definition (exact Gaussian-rational arithmetic); float32-typed shape parameters and complex64 '
+               'coordinates are the single-precision class (orders <= 12); integer-typed coordinates of the integer-arithmetic families (Hermite, Dickson) are judged while the value fits a quarter of the range of the coordinate dtype (the recurrence is evaluated modulo 2^bits)',
+               'a reference value (or its two lower-order neighbours) beyond 1e290 is beyond the family\'s numerically meaningful limit: excluded and counted',
                'xy_seq with cartesian_grid=True and 0-D/1-D coordinates is excluded and counted (grid-axes vs point-list reading is the '
                'open C08 ledger entry), cartesian 2-D grids are read as documented: arr[y, x], first row / first column']
 REQUIRED = ['value.jacobi', 'value.legendre', 'value.cheby1', 'value.cheby2', 'value.cheby3', 'value.cheby4',
@@ -83,7 +98,8 @@ REQUIRED = ['value.jacobi', 'value.legendre', 'value.cheby1', 'value.cheby2', 'v
             'value.jacobi_seq', 'value.legendre_seq', 'value.cheby1_seq', 'value.cheby2_seq', 'value.cheby3_seq', 'value.cheby4_seq',
             'value.hermite_He_seq', 'value.hermite_H_seq', 'value.laguerre_seq', 'value.dickson1_seq', 'value.dickson2_seq',
             'value.Qbfs_seq', 'value.Qcon_seq', 'value.zernike_nm_seq.norm', 'value.zernike_nm_seq.nonorm', 'value.Q2d_seq', 'value.xy_seq',
-            'alias.result-stable', 'alias.jacobi', 'alias.Qbfs', 'alias.Qcon', 'alias.zernike', 'alias.q2d']
+            'alias.result-stable', 'alias.jacobi', 'alias.Qbfs', 'alias.Qcon', 'alias.zernike', 'alias.q2d',
+            'classD.very-high-orders', 'classE.argument-forms', 'classF.foreign-traffic']
 
 CTX = None
 WORST = {}          # monitor -> worst err/tol seen (reported as a note: distance to the threshold)
@@ -129,8 +145,23 @@ def xclass(x):
 
 
 def is_f32(*arrs):
-    """Single-precision class: a float32 coordinate / result, or prysm configured with precision = 32 (whatever the dtypes)."""
-    return any(getattr(a, 'dtype', None) == np.float32 for a in arrs) or cfg32()
+    """Single-precision class: a float32 / complex64 coordinate, result or shape parameter, or prysm configured with precision = 32 (whatever the dtypes)."""
+    return any(getattr(a, 'dtype', None) in (np.float32, np.complex64) for a in arrs) or cfg32()
+
+
+BIG = 1e290          # a reference value (or its neighbours in order) beyond this is "beyond the double range": nothing to compare (excluded and counted)
+INT_ARITHMETIC_FAMS = ('hermite_He', 'hermite_H', 'dickson1', 'dickson2')
+
+
+def numtype(*arrs):
+    """complex when any of the arrays is complex, else float (the type a result is compared in)."""
+    return complex if any(np.asarray(a).dtype.kind == 'c' for a in arrs) else float
+
+
+def jnum(v):
+    """A coordinate value for a JSON detail record."""
+    v = complex(v)
+    return float(v.real) if v.imag == 0 else [float(v.real), float(v.imag)]
 
 
 HISTORY = [None]        # class label of the history the workload is in (set by the history units), for mechanism keys
@@ -175,12 +206,12 @@ def mechanism(recheck, coords, retyped=None):      # retyped: unused (8/16-bit i
 
 # ------------------------------------------------------------------------------------------ exact references
 def _f(q):
-    return float(q)
+    return E.to_number(q)          # float (+-inf beyond the double range) or complex (Gaussian-rational point)
 
 
 def ex_qbfs(n, x):
     rp, nv = E.q_radial(n, 0, x)
-    return float(rp) / math.sqrt(nv)
+    return E.to_number(rp) / math.sqrt(nv)
 
 
 ONE_D = {
@@ -242,6 +273,13 @@ def post_1d(fam):
             return
         desc = {'fn': fam, 'n': n, 'params': [float(v) for v in params], 'x': xclass(x), 'shape': list(np.shape(x)),
                 'dtype': str(getattr(x, 'dtype', type(x).__name__))}
+        xkind = np.asarray(x).dtype.kind
+        if xkind not in 'fcib':
+            CTX.skip(f'{fam}: coordinate dtype kind outside the accepted forms (unsigned integers wrap in x - 1; class E table of vp/polyhard.py)')
+            return
+        # integer-typed coordinates of the families whose recurrence stays in integer arithmetic (Hermite; Dickson with an integer alpha): the value is
+        # computed modulo 2^bits of the coordinate dtype - right only while it fits (H_19(3) = 7.8e12 does not fit an int32); beyond, excluded and counted
+        int_limit = 2.0 ** (8 * np.asarray(x).dtype.itemsize - 2) if (xkind in 'ib' and fam in INT_ARITHMETIC_FAMS) else None
         if fam == 'Qbfs' and n > QBFS_EXACT_MAX:
             CTX.skip('Qbfs exact (Gram-Schmidt) oracle limited to n<=%d; covered by the slope Gram monitor' % QBFS_EXACT_MAX)
             result_shape_ok(fam, result, [x], desc)
@@ -256,8 +294,11 @@ def post_1d(fam):
         qs_all_cheap = xf.size <= 64 and all(cheap_point(E.rat(v)) for v in xf)
         idx = pick_indices(xf.size, n, qs_all_cheap)
         pr = tuple(E.rat(v) for v in params)
-        f32 = is_f32(x, result)
+        f32 = is_f32(x, result, *params)
         rtol = RT32 if f32 else RT64
+        if f32 and n > 12 and not is_f32(x, result) and not cfg32():
+            CTX.skip('single-precision class (float32-typed shape parameters) is judged for orders <= 12')
+            return
         ref = []
         scale = 1.0
         use = []
@@ -267,15 +308,19 @@ def post_1d(fam):
                 continue
             q = E.rat(xf[i])
             r = exact(n, pr, q)
+            sc = max([abs(r)] + [abs(exact(k, pr, q)) for k in (n - 1, n - 2) if k >= 0])
+            if not sc < BIG:
+                CTX.skip('reference value beyond the double range (numerically meaningful limit of the family at this order)')
+                continue
+            if int_limit is not None and not sc < int_limit:
+                CTX.skip('integer-typed coordinates: the value does not fit the integer dtype the recurrence is evaluated in (overflow by nature)')
+                continue
             ref.append(r)
             use.append(i)
-            scale = max(scale, abs(r))
-            for k in (n - 1, n - 2):
-                if k >= 0:
-                    scale = max(scale, abs(exact(k, pr, q)))
+            scale = max(scale, sc)
         if not use:
             return
-        got = rf[use].astype(float)
+        got = rf[use].astype(numtype(rf, ref))
         ref = np.array(ref)
         with np.errstate(all='ignore'):
             err = float(np.max(np.abs(got - ref))) if np.all(np.isfinite(got)) else float('inf')
@@ -284,16 +329,27 @@ def post_1d(fam):
         if not err <= tol:
             def recheck(tr):
                 out = np.asarray(ORIG[fam](a['n'], *params, x if tr is None else tr(x)))
-                return out.shape == np.shape(x) and row_err(out.ravel()[use].astype(float), ref) <= tol
+                return out.shape == np.shape(x) and row_err(out.ravel()[use].astype(numtype(out, ref)), ref) <= tol
             pc = jac_pclass(*[float(v) for v in params]) if fam == 'jacobi' else ''
             def retyped():
                 out = np.asarray(ORIG[fam](n, *[float(v) for v in params], x))
-                return out.shape == np.shape(x) and row_err(out.ravel()[use].astype(float), ref) <= tol
+                return out.shape == np.shape(x) and row_err(out.ravel()[use].astype(numtype(out, ref)), ref) <= tol
             mech = mechanism(recheck, [x], retyped if narrow(a['n'], *params) else None)
-            key = '/'.join(s for s in (['C07', fam, mech] if mech == NARROW else ['C07', fam, 'value', mech] if mech else ['C07', fam, 'value', pc, nclass(n), 'f32' if f32 else '']) if s)
+            key = '/'.join(s for s in (['C07', fam, mech] if mech == NARROW else ['C07', fam, 'value', mech] if mech else ['C07', fam, 'value', pc, 'orders>=171' if n >= 171 else nclass(n), 'f32' if f32 else '']) if s)
             j = int(np.argmax(np.abs(got - ref))) if math.isfinite(err) else 0
+            if not mech and xkind != 'f':
+                # class E attribution: right at the same points given as float64 -> the defect is specific to the coordinate form
+                try:
+                    with np.errstate(all='ignore'):
+                        xc = np.asarray(x).astype(complex if xkind == 'c' else float)
+                        o2 = np.asarray(ORIG[fam](n, *[float(v) for v in params], xc.real.copy() if xkind == 'c' else xc))
+                        r2 = np.array([exact(n, pr, E.rat(float(np.real(xf[i])))) for i in use])
+                    if o2.shape == np.shape(x) and row_err(o2.ravel()[use].astype(float), r2) <= tol:
+                        key = f'C07/{fam}/value/form:x=' + form_class(str(np.asarray(x).dtype))
+                except Exception:  # noqa
+                    pass
             CTX.violation(key, f'{fam}(n, ...) differs from its closed-form definition', desc, err=err, tol=tol,
-                          at=float(xf[use[j]]), got=float(got[j]), ref=float(ref[j]))
+                          at=jnum(xf[use[j]]), got=jnum(got[j]), ref=jnum(ref[j]))
     return post
 
 
@@ -425,8 +481,11 @@ def post_xy(token, args, kwargs, result):
     if xf.size == 0:
         return
     idx = pick_indices(xf.size, m + n, xf.size <= 64)
-    ref = np.array([float(E.monomial_xy(m, n, xf[i], yf[i])) for i in idx])
-    got = gf[idx].astype(float)
+    if x.dtype.kind not in 'fcib' or y.dtype.kind not in 'fcib':
+        CTX.skip('xy: coordinate dtype kind outside the accepted forms')
+        return
+    ref = np.array([E.to_number(E.monomial_xy(m, n, xf[i], yf[i])) for i in idx])
+    got = gf[idx].astype(numtype(gf, ref))
     f32 = is_f32(x, y, result)
     scale = max(1.0, float(np.max(np.abs(ref))))
     err = float(np.max(np.abs(got - ref))) if np.all(np.isfinite(got)) else float('inf')
@@ -580,9 +639,10 @@ def post_seq_1d(fn):
         x = a['x']
         if isinstance(x, np.generic):
             x = np.asarray(x)           # numpy scalar (2*r**2-1 of a 0-D r inside zernike_nm_seq): a 0-D coordinate
-        if not isinstance(x, np.ndarray) or x.dtype.kind != 'f':
-            CTX.skip(f'{fn}: coordinates are not a floating ndarray (out of the documented domain)')
+        if not isinstance(x, np.ndarray) or not seq_coord_kind_ok(fn, x.dtype.kind):
+            CTX.skip(f'{fn}: coordinates are not an ndarray of a dtype kind the routine accepts today (class E table of vp/polyhard.py: floating and complex; integer / bool only where the result is not allocated in the coordinate dtype)')
             return
+        int_limit = 2.0 ** (8 * x.dtype.itemsize - 2) if (x.dtype.kind in 'ib' and fam in INT_ARITHMETIC_FAMS) else None
         params = tuple(a[k] for k in names[1:-1])
         k = len(ns)
         desc = {'fn': fn, 'ns': short(ns), 'params': [float(v) for v in params], 'x': xclass(x), 'shape': list(x.shape),
@@ -607,14 +667,17 @@ def post_seq_1d(fn):
             return
         qs = [E.rat(xf[i]) for i in use]
         pr = tuple(E.rat(v) for v in params)
-        f32 = is_f32(x, result)
+        f32 = is_f32(x, result, *params)
         rtol = RT32 if f32 else RT64
+        if f32 and not is_f32(x, result) and not cfg32():
+            orders = [n for n in orders if n <= 12]          # float32-typed shape parameters: single-precision class, orders <= 12
         refs = {}
 
         def ref_of(n):
             if n not in refs:
                 vals = np.array([exact(n, pr, q) for q in qs])
-                sc = max(1.0, float(np.max(np.abs(vals))))
+                with np.errstate(all='ignore'):
+                    sc = max(1.0, float(np.max(np.abs(vals))))
                 for j in (n - 1, n - 2):
                     if j >= 0:
                         sc = max(sc, max(abs(exact(j, pr, q)) for q in qs))
@@ -623,9 +686,16 @@ def post_seq_1d(fn):
 
         bad, worst = [], None
         pos = {n: i for i, n in enumerate(ns)}
+        nt = numtype(R, x)
         for n in orders:
             ref, sc = ref_of(n)
-            got = R[pos[n], use].astype(float)
+            if not sc < BIG:
+                CTX.skip('reference value beyond the double range (numerically meaningful limit of the family at this order)')
+                continue
+            if int_limit is not None and not sc < int_limit:
+                CTX.skip('integer-typed coordinates: the value does not fit the integer dtype the recurrence is evaluated in (overflow by nature)')
+                continue
+            got = R[pos[n], use].astype(nt)
             err = row_err(got, ref)
             tol = rtol * sc
             _track(mon + ('.f32' if f32 else ''), err, tol)
@@ -633,7 +703,7 @@ def post_seq_1d(fn):
                 bad.append(n)
                 if worst is None:
                     j = int(np.argmax(np.abs(got - ref))) if math.isfinite(err) else 0
-                    worst = dict(order=n, err=err, tol=tol, at=float(xf[use[j]]), got=float(got[j]), ref=float(ref[j]))
+                    worst = dict(order=n, err=err, tol=tol, at=jnum(xf[use[j]]), got=jnum(got[j]), ref=jnum(ref[j]))
         if not bad:
             return
         b = bad[0]
@@ -646,7 +716,7 @@ def post_seq_1d(fn):
                 if out.shape != (len(lst), *x.shape):
                     return True
                 ref, sc = ref_of(b)
-                return not row_err(out.reshape(len(lst), -1)[[int(v) for v in lst].index(b), use].astype(float), ref) <= rtol * sc
+                return not row_err(out.reshape(len(lst), -1)[[int(v) for v in lst].index(b), use].astype(nt), ref) <= rtol * sc
             except Exception:  # noqa
                 return True
 
@@ -667,6 +737,19 @@ def post_seq_1d(fn):
                 label = 'omits-orders-' + ','.join(str(o) for o in fixers)
             else:
                 label = 'omits-low-orders' if (len(low) > 1 and not fails(sorted(ns + low))) else 'gap-above-order-2'
+        if label is None and (x.dtype != np.float64 or any(type(v) is not float for v in params) or type(a['ns']) is not list):
+            # class E attribution: right for the canonical form of the same request (float64 coordinates - the real part of complex ones -, python
+            # float parameters, python ints in a list) -> the defect is specific to an argument form
+            xc = np.ascontiguousarray(x.real if x.dtype.kind == 'c' else x, dtype=np.float64)
+            try:
+                out = np.asarray(ORIG[fn](ns, *[float(v) for v in params], xc)).reshape(k, -1)
+                r2 = np.array([exact(b, pr, E.rat(float(v))) for v in xc.ravel()[use]])
+                if row_err(out[pos[b], use].astype(float), r2) <= rtol * ref_of(b)[1]:
+                    label = 'form:' + ('x=' + form_class(str(x.dtype)) if x.dtype != np.float64 else 'orders-or-parameters-not-canonical')
+            except Exception:  # noqa
+                pass
+        if label is None and min(bad) >= 171:
+            label = 'orders>=171'          # every failing row is an order at / beyond 171 (where n! leaves double precision)
         if label is None:
             pc = jac_pclass(*[float(v) for v in params]) if fam == 'jacobi' else ''
             key = '/'.join(s for s in ['C07', fn, 'value', pc, nclass(b), 'f32' if f32 else ''] if s)
@@ -869,8 +952,8 @@ def post_xy_seq(token, args, kwargs, result):
     if not mns or any(m < 0 or n < 0 for m, n in mns):
         CTX.skip(f'{fn}: exponent list empty / not re-iterable / negative exponent (out of domain)')
         return
-    if not (isinstance(x, np.ndarray) and isinstance(y, np.ndarray)) or x.dtype.kind != 'f' or y.dtype.kind != 'f':
-        CTX.skip(f'{fn}: coordinates are not floating ndarrays (out of the documented domain)')
+    if not (isinstance(x, np.ndarray) and isinstance(y, np.ndarray)) or x.dtype.kind not in 'fci' or y.dtype.kind not in 'fci':
+        CTX.skip(f'{fn}: coordinates are not floating / complex / integer ndarrays (out of the documented domain)')
         return
     if cart and x.ndim < 2:
         CTX.skip('xy_seq: cartesian_grid=True with 0-D/1-D coordinates (axes-of-a-grid vs list-of-points reading is ambiguous; C08 ledger)')
@@ -902,16 +985,16 @@ def post_xy_seq(token, args, kwargs, result):
     if xf.size == 0:
         return
     idx = pick_indices(xf.size, max(m + n for m, n in mns), xf.size <= 64)
-    ref = np.array([[float(E.monomial_xy(m, n, xf[i], yf[i])) for i in idx] for m, n in mns])
+    ref = np.array([[E.to_number(E.monomial_xy(m, n, xf[i], yf[i])) for i in idx] for m, n in mns])
     scales = [max(1.0, float(np.max(np.abs(row)))) for row in ref]
-    got = np.array([np.asarray(mode).ravel()[idx] for mode in result], dtype=float)
+    got = np.array([np.asarray(mode).ravel()[idx] for mode in result], dtype=numtype(ref, *result))
     f32 = is_f32(x, y, *result)
 
     def recall(lst, tr=None):
         try:
             with np.errstate(all='ignore'):
                 xx, yy = (x, y) if tr is None else (tr(x), tr(y))
-                return np.array([np.asarray(mode).ravel()[idx] for mode in ORIG[fn](lst, xx, yy, cartesian_grid=cart)], dtype=float)
+                return np.array([np.asarray(mode).ravel()[idx] for mode in ORIG[fn](lst, xx, yy, cartesian_grid=cart)], dtype=numtype(ref))
         except Exception:  # noqa
             return None
     cg = 'cartesian' if cart else 'general'
@@ -2117,6 +2200,253 @@ def high_order_unit(ctx, P, rng):
             P.hopkins(a_, b_, c_, r, t, H)
 
 
+# ------------------------------------------------------------------------------------------ hardening pass 2 (HARDENING2.md D in the quick tier, E, F)
+def dom01(fam):
+    lo, hi = domain(fam)
+    return (max(lo, 0.0) if fam in ('Qbfs', 'Qcon', 'laguerre') else lo), hi
+
+
+def very_high_unit(ctx, P, fam, params):
+    """Class D in the quick tier too: orders 171, 172, 200, 256, 400 (171! leaves double precision: a closed form built from factorials / Pochhammer
+    symbols overflows there although the values stay moderate), single-order and sequence forms on the same three cheap points, each judged against
+    the exact definition (the Fraction oracle does not care about the order; a reference beyond the double range is excluded and counted)."""
+    lo, hi = dom01(fam)
+    x = np.array([lo, lo + (hi - lo) * 0.40625, hi])
+    f, fs = getattr(P, fam), getattr(P, fam + '_seq')
+    for n in high_orders(fam, not ctx.quick):
+        desc = {'wl': 'very-high-order', 'fn': fam, 'params': list(params), 'n': n, 'class': f'{fam}:very-high-order'}
+        ctx.case(desc)
+        ctx.observe('classD.very-high-orders')
+        with ctx.guard(f'C07/{fam}/very-high-order', desc):
+            f(n, *params, x)
+        for ns in ([n], [0, n - 1, n]) + (([1, 170, 171, 172],) if n == 172 else ()):
+            desc = {'wl': 'very-high-order', 'fn': fam + '_seq', 'params': list(params), 'ns': ns, 'class': f'{fam}_seq:very-high-order'}
+            ctx.case(desc)
+            seq_call(ctx, fam + '_seq', desc, lambda: fs(ns if n % 2 else np.array(ns), *params, x), None, [(nclass(v), lambda v=v: ORIG[fam + '_seq']([v], *params, x)) for v in ns])
+
+
+def coord_form_unit(ctx, P, fam, params):
+    """Class E, forms of the evaluation points: python int / float / complex, int64 / int32 ndarrays (1-D, 2-D, 0-D), numpy int64 scalars, bool
+    ndarrays, complex128 ndarrays (1-D, 2-D, 0-D, real-valued), complex64 (single-precision class).  The contracts judge every call against the
+    exact definition at the very points passed (integers exactly; complex points as Gaussian rationals)."""
+    lo, hi = dom01(fam)
+    f, fs = getattr(P, fam), getattr(P, fam + '_seq')
+    for lab, kind, xv, xf in coord_forms(lo, hi):
+        for n in ctx.pick((0, 1, 2, 3, 5, 8, 12), tuple(range(13)) + (15, 19, 25, 40)) if lab != 'complex64-1d' else ctx.pick((0, 1, 2, 3, 5, 8), tuple(range(9))):
+            desc = {'wl': 'coordinate-forms', 'fn': fam, 'params': list(params), 'n': n, 'x_as': lab, 'class': f'{fam}:x-as-{lab.split(":")[0]}'}
+            ctx.case(desc, nontrivial=n >= 1)
+            ctx.observe('classE.argument-forms')
+            with ctx.guard(f'C07/{fam}/x-as-{form_class(lab)}', desc):
+                f(n, *params, xv)
+    for lab, kind, xv, xf in coord_forms(lo, hi, seq=True):
+        if not seq_coord_kind_ok(fam + '_seq', kind):
+            ctx.skip(f'*_seq with integer / bool coordinates truncates into the coordinate dtype today (class E table): excluded')
+            continue
+        for ns in ([0, 1, 2, 3], [2, 5], [1], [0, 3, 8, 12], [7], [0]) + ctx.pick((), ([0, 1, 2, 3, 4, 5, 6, 7, 8], [3, 4], [2], [1, 2, 19], [4, 9, 25, 40], [12], [0, 2])):
+            if lab == 'complex64-1d' and ns[-1] > 8:
+                continue
+            desc = {'wl': 'coordinate-forms', 'fn': fam + '_seq', 'params': list(params), 'ns': ns, 'x_as': lab, 'class': f'{fam}_seq:x-as-{lab}'}
+            ctx.case(desc, nontrivial=ns[-1] >= 1)
+            seq_call(ctx, fam + '_seq', desc, lambda: fs(ns, *params, xv), None, [(nclass(v), lambda v=v: ORIG[fam + '_seq']([v], *params, xv)) for v in ns])
+
+
+def coord_form_nm_unit(ctx, P, rng):
+    """Class E for the two-coordinate routines: integer-typed radius / coordinates where the class E table lists the routine (zernike_nm for n > |m|,
+    Q2d, xy, xy_seq, hopkins), complex coordinates for xy / xy_seq."""
+    t = np.array([0.5, 1.75, 3.0, 5.5])
+    for lab, r, tt in (('int64', np.array([0, 1, 1, 0]), t), ('int32', np.array([1, 0, 1, 1], dtype=np.int32), t), ('pyint:1', 1, 0.75), ('pyint:0', 0, 2.5),
+                       ('int64-2d', np.array([[0, 1], [1, 1]]), t.reshape(2, 2)), ('bool', np.array([False, True, True, False]), t), ('int64+int-angle', np.array([0, 1, 1, 0]), np.array([0, 1, 2, 3]))):
+        for n, m in ((3, 1), (3, -1), (4, 0), (2, 0), (5, 3), (4, -2), (6, 2), (19, 1)):
+            desc = {'wl': 'coordinate-forms', 'fn': 'zernike_nm', 'n': n, 'm': m, 'r_as': lab, 'class': f'zernike_nm:r-as-{lab.split(":")[0]}'}
+            ctx.case(desc)
+            with ctx.guard('C07/zernike_nm/r-as-integer', desc):
+                P.zernike_nm(n, m, r, tt, norm=bool((n + m) % 4))
+        for n, m in ((3, 2), (5, -3), (6, 0), (0, 1), (0, 0), (2, -1), (19, 1)):
+            desc = {'wl': 'coordinate-forms', 'fn': 'Q2d', 'n': n, 'm': m, 'r_as': lab, 'class': f'Q2d:r-as-{lab.split(":")[0]}'}
+            ctx.case(desc)
+            with ctx.guard('C07/Q2d/r-as-integer', desc):
+                P.Q2d(n, m, r, tt)
+    xi, yi = np.array([-2, -1, 0, 1, 2]), np.array([2, 0, 1, -1, 3])
+    for lab, xa, ya in (('int64', xi, yi), ('int32', xi.astype(np.int32), yi.astype(np.int32)), ('pyint', 2, -1), ('complex128', xi * 0.25 + 0.5j, yi * 0.25 - 0.125j), ('pycomplex', 0.5 + 0.25j, -0.75j),
+                        ('int64-2d', np.array([xi, yi]), np.array([yi, xi]))):
+        for m_, n_ in ((2, 3), (0, 1), (0, 0), (3, 0), (1, 1), (7, 2)):
+            desc = {'wl': 'coordinate-forms', 'fn': 'xy', 'm': m_, 'n': n_, 'x_as': lab, 'class': f'xy:x-as-{lab}'}
+            ctx.case(desc)
+            with ctx.guard(f'C07/xy/x-as-{form_class(lab)}', desc):
+                P.xy(m_, n_, xa, ya, cartesian_grid=False)
+        if isinstance(xa, np.ndarray):
+            lst = [(2, 3), (0, 1), (0, 0), (3, 0), (1, 1)]
+            desc = {'wl': 'coordinate-forms', 'fn': 'xy_seq', 'x_as': lab, 'class': f'xy_seq:x-as-{lab}'}
+            ctx.case(desc)
+            seq_call(ctx, 'xy_seq', desc, lambda: P.xy_seq(lst, xa, ya, cartesian_grid=False), None, [('general', lambda e=e: ORIG['xy_seq']([e], xa, ya, cartesian_grid=False)) for e in lst])
+        if 'complex' not in lab:
+            desc = {'wl': 'coordinate-forms', 'fn': 'hopkins', 'x_as': lab, 'class': f'hopkins:r-as-{lab}'}
+            ctx.case(desc)
+            with ctx.guard('C07/hopkins/r-as-integer', desc):
+                ta = np.linspace(0.3, 5.0, np.size(xa)).reshape(np.shape(xa)) if isinstance(xa, np.ndarray) else 0.75
+                P.hopkins(2, 3, 1, xa, ta, ya)
+                P.hopkins(-1, 0, 2, xa, ta, ya)
+    Xi, Yi = np.meshgrid(np.arange(-2, 3), np.arange(-1, 3))
+    desc = {'wl': 'coordinate-forms', 'fn': 'xy', 'x_as': 'int64-meshgrid', 'class': 'xy:x-as-int64-meshgrid'}
+    ctx.case(desc)
+    with ctx.guard('C07/xy/x-as-integer', desc):
+        P.xy(2, 3, Xi, Yi)
+    seq_call(ctx, 'xy_seq', desc, lambda: P.xy_seq([(2, 3), (0, 1), (2, 0)], Xi, Yi), None, [('cartesian', lambda: ORIG['xy_seq']([(2, 3)], Xi, Yi))])
+
+
+def judge_generator(ctx, fn, got, lst_call, desc, form):
+    """A one-shot generator is consumed by the routine: the contract cannot read the request back.  The result must equal the one for the same orders
+    in a list (requested through the monitored routine, so that one is judged against the definition)."""
+    want = lst_call()
+    ctx.observe('value.' + fn)
+    ok = np.shape(got) == np.shape(want) and np.allclose(np.asarray(got), np.asarray(want), rtol=1e-13, atol=0)
+    ctx.require('value.' + fn, bool(ok), f'C07/{fn}/value/form:{form}', f'{fn}: the result for the order list given as {form} differs from the result for the same orders in a list', desc)
+
+
+def order_form_unit(ctx, P, rng):
+    """Class E, forms of the orders: n as every ORDER_FORMS element type (python int, int64, int32, uint32, uint64, intp, 0-d arrays) for single-order
+    and sequence forms; unsigned ndarrays, dict key views, generators / iterators where accepted; (n, m) / exponents as numpy integers (unsigned for n
+    only); term lists in every accepted container."""
+    for fam, params in ALIAS_FAMS:
+        lo, hi = dom01(fam)
+        x = dyadic(rng, lo, hi, (4,), den=32)
+        f, fs = getattr(P, fam), getattr(P, fam + '_seq')
+        for lab, mk in ORDER_FORMS:
+            if lab in ('pyint', 'int64', 'int32', 'intp'):
+                continue            # driven by container_unit
+            for n in (0, 1, 2, 5, 19):
+                desc = {'wl': 'order-forms', 'fn': fam, 'n': n, 'n_as': lab, 'params': list(params), 'class': f'{fam}:n-as-{lab}'}
+                ctx.case(desc, nontrivial=n >= 1)
+                with ctx.guard(f'C07/{fam}/n-as-{lab}', desc):
+                    f(mk(n), *params, x)
+            for ns in ([0, 1, 2, 3], [2, 5, 19], [1]):
+                desc = {'wl': 'order-forms', 'fn': fam + '_seq', 'ns': ns, 'orders_as': 'list-of-' + lab, 'params': list(params), 'class': f'{fam}_seq:orders-as-list-of-{lab}'}
+                ctx.case(desc)
+                seq_call(ctx, fam + '_seq', desc, lambda: fs([mk(n) for n in ns], *params, x), None, [(nclass(n), lambda n=n: ORIG[fam + '_seq']([n], *params, x)) for n in ns])
+        for ns in ([0, 1, 2, 3], [2, 5, 19], [1]):
+            for lab, mk in more_order_containers(ns, fam + '_seq'):
+                desc = {'wl': 'order-forms', 'fn': fam + '_seq', 'ns': ns, 'orders_as': lab, 'params': list(params), 'class': f'{fam}_seq:orders-as-{lab}'}
+                ctx.case(desc)
+                box = []
+                seq_call(ctx, fam + '_seq', desc, lambda: box.append(fs(mk(), *params, x)), None, [(nclass(n), lambda n=n: ORIG[fam + '_seq']([n], *params, x)) for n in ns])
+                if box and lab in ('generator', 'iterator'):
+                    judge_generator(ctx, fam + '_seq', box[0], lambda: fs(list(ns), *params, x), desc, 'orders=' + lab)
+    r = dyadic(rng, 0, 1, (4,), den=32)
+    t = rng.uniform(0, 2 * np.pi, 4)
+    for lab, mk, both in [(l, f_, False) for l, f_ in N_ONLY_FORMS]:
+        desc = {'wl': 'order-forms', 'fn': 'zernike_nm/Q2d/xy/hopkins', 'nm_as': lab, 'class': f'two-index:{"n-m" if both else "n"}-as-{lab}'}
+        ctx.case(desc)
+        with ctx.guard(f'C07/two-index/n-as-{lab}', desc):
+            for n, m in ((4, 2), (5, -3), (19, 1), (6, 0), (3, 3)):
+                P.zernike_nm(mk(n), mk(m) if both else m, r, t, norm=bool(n % 2))
+            for n, m in ((3, 2), (5, -3), (19, 1), (6, 0), (0, 2)):
+                P.Q2d(mk(n), mk(m) if both else m, r, t)
+            P.xy(mk(2), mk(3), r, t, cartesian_grid=False)
+            P.hopkins(mk(2), mk(3), mk(1), r, t, r)
+    for fn, L, kw in (('zernike_nm_seq', [(4, 2), (4, -2), (2, 0), (19, 1), (3, 3)], {}), ('zernike_nm_seq', [(5, 3), (3, -1)], {'norm': False}),
+                      ('Q2d_seq', [(3, 2), (3, -2), (2, 0), (19, 1)], {}), ('xy_seq', [(2, 3), (0, 1), (2, 0), (0, 0)], {'cartesian_grid': False})):
+        conts = [c for c in term_containers(L, fn) if c[0] in ('list-of-numpy-int-pairs', 'dict-keys')] + \
+                [('list-of-' + lab, [(mk(a), mk(b)) for a, b in L]) for lab, mk in NM_FORMS]
+        for lab, cont in conts:
+            desc = {'wl': 'order-forms', 'fn': fn, 'terms_as': lab, 'class': f'{fn}:terms-as-{lab}'}
+            ctx.case(desc)
+            seq_call(ctx, fn, desc, lambda: getattr(P, fn)(cont, r, t, **kw), None, [('term', lambda e=e: ORIG[fn]([e], r, t, **kw)) for e in L])
+
+
+def param_form_unit(ctx, P, rng):
+    """Class E, forms of the shape parameters: numpy float64, numpy float32 (single-precision class, orders <= 12), python int / numpy int64 for
+    integer values - incl. the parameter lines alpha + beta = -1 and = 0 with alpha != beta - for jacobi, laguerre, dickson1/2, single and sequence."""
+    table = [('jacobi', [(0.25, -0.25), (-0.25, -0.75), (-0.75, -0.25), (0.75, -0.75), (1.5, 0.5), (-0.5, 0.5)], [(0, 4), (1, 0), (2, 1), (0, 0)]),
+             ('laguerre', [(0.5,), (-0.75,), (1.5,)], [(0,), (2,), (1,)]), ('dickson1', [(0.75,), (-0.625,)], [(0,), (1,), (-1,)]), ('dickson2', [(0.75,), (-0.625,)], [(0,), (1,), (-1,)])]
+    for fam, plist, ilist in table:
+        lo, hi = dom01(fam)
+        x = dyadic(rng, lo, hi, (4,), den=32)
+        f, fs = getattr(P, fam), getattr(P, fam + '_seq')
+        for pars, forms in ((plist, PARAM_FORMS[1:]), (ilist, INT_PARAM_FORMS)):
+            for par in pars:
+                for lab, mk, exact in forms:
+                    pp = tuple(mk(v) for v in par)
+                    for n in (0, 1, 2, 3, 7, 12):
+                        desc = {'wl': 'parameter-forms', 'fn': fam, 'n': n, 'params': list(par), 'params_as': lab, 'class': f'{fam}:params-as-{lab}'}
+                        ctx.case(desc, nontrivial=n >= 1)
+                        with ctx.guard(f'C07/{fam}/params-as-{lab}', desc):
+                            f(n, *pp, x)
+                    for ns in ([0, 1, 2, 3], [2, 7, 12], [1]):
+                        desc = {'wl': 'parameter-forms', 'fn': fam + '_seq', 'ns': ns, 'params': list(par), 'params_as': lab, 'class': f'{fam}_seq:params-as-{lab}'}
+                        ctx.case(desc)
+                        seq_call(ctx, fam + '_seq', desc, lambda: fs(ns, *pp, x), None, [(nclass(n), lambda n=n: ORIG[fam + '_seq']([n], *pp, x)) for n in ns])
+
+
+def option_form_unit(ctx, P, rng):
+    """Class E, optional arguments omitted vs the documented default passed explicitly, also right after a call that passed the other explicit value
+    (norm of zernike_nm / zernike_nm_seq, cartesian_grid of xy / xy_seq; keyword vs positional)."""
+    r = np.concatenate([[0.0, 1.0], dyadic(rng, 0, 1, (3,), den=32)])
+    t = rng.uniform(0, 2 * np.pi, 5)
+    nms = [(4, 2), (3, -1), (2, 0), (5, 5), (6, 0)]
+    for step, kw in enumerate(({'norm': False}, {}, {'norm': True}, {}, {'norm': False}, {}, 'positional-True', {})):
+        for n, m in nms:
+            desc = {'wl': 'option-forms', 'fn': 'zernike_nm', 'n': n, 'm': m, 'opt': str(kw) or 'norm-omitted', 'step': step, 'class': f'zernike_nm:{"norm-omitted" if not kw else "norm-explicit"}'}
+            ctx.case(desc)
+            with ctx.guard('C07/zernike_nm/norm-omitted-vs-explicit', desc):
+                P.zernike_nm(n, m, r, t, True) if kw == 'positional-True' else P.zernike_nm(n, m, r, t, **kw)
+        desc = {'wl': 'option-forms', 'fn': 'zernike_nm_seq', 'opt': str(kw) or 'norm-omitted', 'step': step, 'class': f'zernike_nm_seq:{"norm-omitted" if not kw else "norm-explicit"}'}
+        ctx.case(desc)
+        kk = {} if kw == 'positional-True' else kw
+        seq_call(ctx, 'zernike_nm_seq', desc, (lambda: P.zernike_nm_seq(nms, r, t, True)) if kw == 'positional-True' else (lambda: P.zernike_nm_seq(nms, r, t, **kw)), None,
+                 [(zmclass(e[1]), lambda e=e: ORIG['zernike_nm_seq']([e], r, t, **kk)) for e in nms])
+    xv, yv = dyadic(rng, -1, 1, (4,), den=16), dyadic(rng, -1, 1, (3,), den=16)
+    X, Y = np.meshgrid(xv, yv)
+    lst = [(2, 1), (0, 3), (1, 0), (0, 0)]
+    for step, kw in enumerate(({'cartesian_grid': False}, {}, {'cartesian_grid': True}, {}, {'cartesian_grid': False}, {})):
+        desc = {'wl': 'option-forms', 'fn': 'xy', 'opt': str(kw) or 'cartesian_grid-omitted', 'step': step, 'class': f'xy:{"cartesian_grid-omitted" if not kw else "cartesian_grid-explicit"}'}
+        ctx.case(desc)
+        with ctx.guard('C07/xy/cartesian_grid-omitted-vs-explicit', desc):
+            for m_, n_ in lst:
+                P.xy(m_, n_, X, Y, **kw)
+        seq_call(ctx, 'xy_seq', desc, lambda: P.xy_seq(lst, X, Y, **kw), None, [('cartesian' if kw.get('cartesian_grid', True) else 'general', lambda e=e: ORIG['xy_seq']([e], X, Y, **kw)) for e in lst])
+
+
+def foreign_unit(ctx, P, rng, rep):
+    """Class F: the other public consumers of the helpers the value routines share (recurrence_abc, the Qbfs / 2D-Q coefficient tables): derivative and
+    Clenshaw routines, sag-and-slope evaluators, change-of-basis helpers, the fit - with numpy-typed orders, ndarray coefficient vectors, precision 32,
+    explicit non-default keywords - run first, unmonitored and unjudged; then every value routine is judged as usual."""
+    ctx.event('foreign-traffic-raised', foreign_traffic(P, rep))
+    ctx.observe('classF.foreign-traffic')
+    orders = [(0, 1, 2, 3, 7), (18, 5, 41), (19, 2, 40), (1, 17, 3)][rep % 4]
+    for fam, params in ALIAS_FAMS:
+        lo, hi = dom01(fam)
+        x = np.array([lo, lo + (hi - lo) * 0.34375, lo + (hi - lo) * 0.8125, hi])
+        for n in orders:
+            n = min(n, 40) if fam in ('hermite_He', 'hermite_H', 'laguerre', 'dickson1', 'dickson2') else n
+            desc = {'wl': 'foreign-traffic', 'fn': fam, 'params': list(params), 'n': n, 'class': f'{fam}:after-foreign-traffic'}
+            ctx.case(desc, nontrivial=n >= 1)
+            with ctx.guard(f'C07/{fam}/after-foreign-traffic', desc):
+                getattr(P, fam)(n, *params, x)
+        ns = sorted(set(min(n, 40) for n in orders))
+        desc = {'wl': 'foreign-traffic', 'fn': fam + '_seq', 'params': list(params), 'ns': ns, 'class': f'{fam}_seq:after-foreign-traffic'}
+        ctx.case(desc)
+        seq_call(ctx, fam + '_seq', desc, lambda: getattr(P, fam + '_seq')(ns, *params, x), None, [(nclass(v), lambda v=v: ORIG[fam + '_seq']([v], *params, x)) for v in ns])
+    r = np.array([0.0, 0.34375, 0.8125, 1.0])
+    t = rng.uniform(0, 2 * np.pi, 4)
+    top = max(orders)
+    zl = [(2 * top + 4, 4), (2 * top + 4, -4), (2 * top, 0), (2 * top + 1, 1), (3, -1)]
+    ql = [(top, 0), (top, 2), (top, -2), (top, 1), (2, -7)]
+    for n, m in zl:
+        desc = {'wl': 'foreign-traffic', 'fn': 'zernike_nm', 'n': n, 'm': m, 'class': 'zernike_nm:after-foreign-traffic'}
+        ctx.case(desc)
+        with ctx.guard('C07/zernike_nm/after-foreign-traffic', desc):
+            P.zernike_nm(n, m, r, t, norm=bool(rep % 2))
+    for n, m in ql:
+        desc = {'wl': 'foreign-traffic', 'fn': 'Q2d', 'n': n, 'm': m, 'class': 'Q2d:after-foreign-traffic'}
+        ctx.case(desc)
+        with ctx.guard('C07/Q2d/after-foreign-traffic', desc):
+            P.Q2d(n, m, r, t)
+    for fn, lst, kw in (('zernike_nm_seq', zl, {'norm': not rep % 2}), ('Q2d_seq', ql, {}), ('xy_seq', [(top % 9, 2), (0, 1), (3, 0)], {'cartesian_grid': False})):
+        desc = {'wl': 'foreign-traffic', 'fn': fn, 'class': f'{fn}:after-foreign-traffic'}
+        ctx.case(desc)
+        seq_call(ctx, fn, desc, lambda: getattr(P, fn)(lst, r, t, **kw), None, [('term', lambda e=e: ORIG[fn]([e], r, t, **kw)) for e in lst])
+
+
 def hardening_units(ctx, P):
     """(callable, weight) units of the hardening classes; the list `last` must run after everything else on its shard."""
     units, last = [], []
@@ -2145,6 +2475,16 @@ def hardening_units(ctx, P):
     for v in HIST_VARIANTS:
         units.append((lambda v=v: history_shared_unit(ctx, P, v), 1))
         units.append((lambda v=v: history_q_unit(ctx, P, v, (1, 2, 3) if v.startswith('f32') else (1, 2, 7)), 2))
+    # hardening pass 2: class D (very high orders) per family, class E (argument forms), class F (foreign traffic)
+    for i, (fam, params) in enumerate(ALIAS_FAMS):
+        units.append((lambda fam=fam, params=params: very_high_unit(ctx, P, fam, params), 2))
+        units.append((lambda fam=fam, params=params: coord_form_unit(ctx, P, fam, params), 1))
+    units.append((lambda: coord_form_nm_unit(ctx, P, ctx.rng('coord-forms-nm')), 1))
+    units.append((lambda: order_form_unit(ctx, P, ctx.rng('order-forms')), 2))
+    units.append((lambda: param_form_unit(ctx, P, ctx.rng('param-forms')), 1))
+    units.append((lambda: option_form_unit(ctx, P, ctx.rng('option-forms')), 1))
+    for rep in range(ctx.pick(4, 8)):
+        units.append((lambda rep=rep: foreign_unit(ctx, P, ctx.rng('foreign', rep), rep), 1))
     last.append((lambda: typed_parameter_unit(ctx, P), 1))
     return units, last
 
